@@ -58,7 +58,7 @@ def run_property(prop, tier, seed, only=None, verbose=False):
     if tier == 'thorough' and not only:
         extra_info = extra_info or {}
         extra_info['thorough'], thorough_rc = thorough_extras(prop, seed)
-    rc = report.conclude(prop, tier, seed, mod, cresults, obligations, time.time() - t0, extra_info, verbose=verbose)
+    rc = report.conclude(prop, tier, seed, mod, cresults, obligations, time.time() - t0, extra_info, verbose=verbose, only=only)
     if rc == 0 and thorough_rc:
         print('CHECKER-ERROR: thorough-tier self checks failed (axiom cross-check or kill list), see evidence coverage.extra')
         return 3
